@@ -4,6 +4,7 @@
 package keyx
 
 import (
+	"sync"
 	"bytes"
 	"crypto/hmac"
 	"crypto/sha256"
@@ -391,6 +392,14 @@ func runKeyPool(c KeyGenCase, rng *rand.Rand, res *Result, add func(pred, d stri
 				add("CachedConsistently", "repeated PublicKey() calls are not Equal")
 			}
 			firstPK[h.I-1] = pk
+		case "PKAll":
+			for i := range pool {
+				pk := pool[i].PublicKey()
+				if f, ok := firstPK[i]; ok && (!f.Equals(pk) || !pk.Equals(f)) {
+					add("CachedConsistently", "repeated PublicKey() calls are not Equal")
+				}
+				firstPK[i] = pk
+			}
 		case "Redecode":
 			pool = append(pool, decode(new(big.Int).SetBytes(pool[h.I-1].Encode())))
 		case "Agg":
@@ -464,7 +473,30 @@ func algoOf(name string) (crypto.SigningAlgorithm, *ref.Curve, *big.Int) {
 
 var g2Order string // "zcash" | "flow": coefficient order of the library's G2 encoding (finding D5 is judged by C05)
 
+var refPKMemo sync.Map // scalar (hex) -> reference BLS public key bytes
+
 func refPublicKey(algo string, cur *ref.Curve, d *big.Int) []byte {
+	if cur == nil {
+		if v, ok := refPKMemo.Load(d.Text(16)); ok {
+			return v.([]byte)
+		}
+		out := refPublicKeyBLS(d)
+		refPKMemo.Store(d.Text(16), out)
+		return out
+	}
+	return refPublicKeyECDSA(cur, d)
+}
+
+func refPublicKeyECDSA(cur *ref.Curve, d *big.Int) []byte {
+	p := cur.Mul(cur.G(), d)
+	out := make([]byte, 64)
+	p.X.FillBytes(out[:32])
+	p.Y.FillBytes(out[32:])
+	return out
+}
+
+func refPublicKeyBLS(d *big.Int) []byte {
+	var cur *ref.Curve
 	if cur == nil {
 		if g2Order == "" {
 			one, _ := crypto.DecodePrivateKey(crypto.BLSBLS12381, append(make([]byte, 31), 1))
